@@ -59,6 +59,10 @@ func (plugin *RetryPlugin) OnResponse(
 			if !onResponse.IsNewSequence() {
 				return &actions.NoOpAction{}, nil
 			}
+			if remedyConfig.Attempts < 1 {
+				// No retry is allowed by configuration
+				return &actions.NoOpAction{}, nil
+			}
 			retryState = RetryState{
 				attemptsLeft:        remedyConfig.Attempts,
 				nextCooldownSeconds: remedyConfig.InitialCooldownSeconds,
